@@ -346,14 +346,15 @@ Fixpoint run_ops (root : str) (f : fs) (cks : list (list entry * store)) (ops : 
     | OWrite raw mode data code tmp =>
       let '(f1, er) := write_tool expected_tool_steps f raw corr_ext mode data in
       tmp_fresh f expected_tool_steps raw corr_ext && tmp_agrees raw tmp
-      && (code =? match er with None => 0 | Some _ => 1 end) && same_listing f1 after && sane_b after
+      && (code =? match er with None => 0 | Some _ => 1 end) && same_listing f1 after && sane_b after && tree_b after && nonul_b after
       && run_ops root after cks r
     | OTamper idx rel now => run_ops root after (tamper_nth cks (N.to_nat idx) rel now) r
     | OEdit => run_ops root after cks r
     end
   end.
 
-Definition check_case (c : case) : bool := sane_b (c_init c) && run_ops (c_root c) (c_init c) [] (c_ops c).
+Definition check_case (c : case) : bool :=
+  sane_b (c_init c) && tree_b (c_init c) && nonul_b (c_init c) && run_ops (c_root c) (c_init c) [] (c_ops c).
 
 (* diagnosis shown on a disagreement: [number of the first operation (from 1) the model does not reproduce
    (0 = the initial workspace is not sane); what failed there: 1 result code, 2 recorded entries, 3 listing,
@@ -383,14 +384,14 @@ Fixpoint diag_ops (root : str) (f : fs) (cks : list (list entry * store)) (ops :
       if negb (tmp_fresh f expected_tool_steps raw corr_ext) then [i; 5]
       else if negb (tmp_agrees raw tmp) then [i; 7]
       else if negb (code =? match er with None => 0 | Some _ => 1 end) then [i; 1; match er with None => 0 | Some e => e end]
-      else if negb (same_listing f1 after) then [i; 3] else if negb (sane_b after) then [i; 6]
+      else if negb (same_listing f1 after) then [i; 3] else if negb (sane_b after && tree_b after && nonul_b after) then [i; 6]
       else diag_ops root after cks r (i + 1)
     | OTamper idx rel now => diag_ops root after (tamper_nth cks (N.to_nat idx) rel now) r (i + 1)
     | OEdit => diag_ops root after cks r (i + 1)
     end
   end.
 Definition model_obs (c : case) : list N :=
-  if sane_b (c_init c) then diag_ops (c_root c) (c_init c) [] (c_ops c) 1 else [0].
+  if sane_b (c_init c) && tree_b (c_init c) && nonul_b (c_init c) then diag_ops (c_root c) (c_init c) [] (c_ops c) 1 else [0].
 
 (* ---------- a whole session: several checkpoints, arbitrary edits, rewinds in any order (c14_multi) ---------- *)
 Inductive hop :=
